@@ -26,7 +26,7 @@ Definition item_enc (i : item) : list (list Z) :=
   match i with
   | ISingle n => [n]
   | IStapA nri us => [Z.lor 24 nri :: concat (map unit_enc us)]
-  | IFua h cs => fua_enc (Z.lor 28 (Z.land h 96)) (Z.land h 31) true cs
+  | IFua h cs => fua_enc (Z.lor 28 (Z.land h 224)) (Z.land h 31) true cs
   end.
 
 Definition item_units (i : item) : list (list Z) :=
@@ -39,13 +39,14 @@ Definition item_units (i : item) : list (list Z) :=
 Definition rfc_stream (plan : list item) : list (list Z) := concat (map item_enc plan).
 Definition rfc_units (plan : list item) : list (list Z) := concat (map item_units plan).
 
-Definition nri_ok (nri : Z) : Prop := nri = 0 \/ nri = 32 \/ nri = 64 \/ nri = 96.
+(* the F and NRI bits of a NAL unit header octet *)
+Definition nri_ok (nri : Z) : Prop := nri = 0 \/ nri = 32 \/ nri = 64 \/ nri = 96 \/ nri = 128 \/ nri = 160 \/ nri = 192 \/ nri = 224.
 
-(* well-formed items: F = 0, unit types 1-23, aggregated units fit their 16-bit size field, a
+(* well-formed items: unit types 1-23, aggregated units fit their 16-bit size field, a
    fragmented unit has at least two fragments (S and E never share a packet) *)
 Definition wf_item (i : item) : Prop :=
   match i with
-  | ISingle n => match n with b0 :: _ => 0 <= b0 < 128 /\ 1 <= Z.land b0 31 <= 23 | [] => False end
+  | ISingle n => match n with b0 :: _ => 0 <= b0 < 256 /\ 1 <= Z.land b0 31 <= 23 | [] => False end
   | IStapA nri us => nri_ok nri /\ Forall (fun u => zlen u < 65536) us
-  | IFua h cs => 0 <= h < 128 /\ 1 <= Z.land h 31 <= 23 /\ (2 <= length cs)%nat
+  | IFua h cs => 0 <= h < 256 /\ 1 <= Z.land h 31 <= 23 /\ (2 <= length cs)%nat
   end.
